@@ -145,6 +145,50 @@ type GenOpts struct {
 	// router that refuses RouterErrPath with a plain error value, and a tenth of their requests go there
 	// (C06: "for requests that fail routing, the container filters still run once")
 	RouterErr bool
+	// Bodies: in half of the configurations scripts (route functions, filters that get a
+	// restful.Request) read the request's entity with ReadEntity, into an entity type whose decoding
+	// panics in a third of the reads; every request of their histories carries a JSON entity, plain,
+	// gzip- or deflate-encoded
+	Bodies bool
+}
+
+// sprinkleReads inserts "re" acts into the scripts that are handed a restful.Request.
+func sprinkleReads(r *rng.R, cfg *Cfg, panicPct int) {
+	into := func(as []Act) []Act {
+		if !r.Chance(1, 3) {
+			return as
+		}
+		a := Act{K: "re"}
+		if r.Intn(100) < 3*panicPct {
+			a.B = genPanicText(r)
+		}
+		i := r.Intn(len(as) + 1)
+		return append(as[:i:i], append([]Act{a}, as[i:]...)...)
+	}
+	inF := func(fs []Filter) {
+		for i := range fs {
+			if fs[i].Kind != "middle" {
+				fs[i].Pre, fs[i].Post = into(fs[i].Pre), into(fs[i].Post)
+			}
+		}
+	}
+	inF(cfg.CF)
+	done := map[int]Filter{} // a filter that several routes share (one RouteBuilder, cfg.Reuse) is one filter
+	for _, s := range cfg.Routing.Services {
+		inF(cfg.SvcF[s.ID])
+		for _, rt := range s.Routes {
+			rx := cfg.RouteX[rt.ID]
+			for i, f := range rx.Filters {
+				if d, ok := done[f.ID]; ok {
+					rx.Filters[i] = d
+					continue
+				}
+				inF(rx.Filters[i : i+1])
+				done[f.ID] = rx.Filters[i]
+			}
+			rx.Script = into(into(rx.Script))
+		}
+	}
 }
 
 // GenCfg draws a serve configuration over a small route table.
@@ -183,8 +227,18 @@ func GenCfg(r *rng.R, o GenOpts) *Cfg {
 		if o.Overlap && len(cfg.SvcF[s.ID]) == 0 {
 			cfg.SvcF[s.ID] = []Filter{genFilter(r, &id, &hdrN, 0)}
 		}
+		var prevF []Filter
 		for _, rt := range s.Routes {
 			rx := &RouteX{ID: rt.ID, Script: genActs(r, 4, true, o.PanicPct*2, &hdrN), Filters: genFilters(r, 2, &id, &hdrN, o.PanicPct)}
+			if r.Chance(1, 3) && len(prevF) > 0 {
+				// a family of routes behind the same filters (one RouteBuilder used for several
+				// methods or paths, cfg.Reuse): the filters of the previous route, then this route's own
+				rx.Filters = append(append([]Filter{}, prevF...), rx.Filters...)
+				if len(rx.Filters) > 3 {
+					rx.Filters = rx.Filters[:3]
+				}
+			}
+			prevF = rx.Filters
 			switch r.Intn(7) {
 			case 0:
 				b := true
@@ -211,6 +265,16 @@ func GenCfg(r *rng.R, o GenOpts) *Cfg {
 	}
 	if o.RouterErr && r.Chance(1, 3) {
 		cfg.RouterErr = true
+	}
+	if o.Bodies && r.Chance(1, 2) {
+		cfg.Bodies = true
+		sprinkleReads(r, cfg, o.PanicPct)
+	}
+	if r.Chance(1, 2) {
+		cfg.Reuse = r.U64() | 1 // RouteBuilder values used for more than one ws.Route call
+	}
+	if r.Chance(1, 3) {
+		cfg.Churn = 1 + r.Intn(7) // WebServices added and removed again before the judged requests
 	}
 	return cfg
 }
@@ -301,6 +365,11 @@ func GenReq(r *rng.R, o GenOpts, cfg *Cfg) SReq {
 	}
 	if sr.Entry == "serveDispatch" && !MuxReaches(cfg, sr.Req.Path) {
 		sr.Entry = "dispatch"
+	}
+	if cfg.Bodies {
+		sr.Req.CT = "application/json"
+		sr.BodyDoc = `{"Name":"n` + strconv.Itoa(r.Intn(1000)) + `"}`
+		sr.BodyEnc = []string{"", "gzip", "gzip", "deflate"}[r.Intn(4)]
 	}
 	if (sr.Entry == "dispatch" || sr.Entry == "serveDispatch") && r.Intn(100) < o.PanicPct {
 		// fault traffic whose panic is raised inside route selection (an If-condition panics)
